@@ -637,6 +637,20 @@ func (pr *ProtoArray) OnPrune(ctx context.Context, anchorRoot Root, anchorSlot S
 		// update offset
 		pr.indexOffset++
 	}
+	if err == nil {
+		// Blocks built on the anchor root hang off the lowest node known for that root (see ProcessBlock).
+		// That node is the anchor from now on: move those that pointed at a pruned gap-slot predecessor.
+		anchorNode := &pr.nodes[anchorIndex-pr.indexOffset]
+		for i := range pr.nodes {
+			node := &pr.nodes[i]
+			if node.ForkchoiceParent != NONE && node.ForkchoiceParent < pr.indexOffset &&
+				node.ParentRoot == anchorRoot && node.Ref.Root != anchorRoot && node.Ref.Slot > anchorSlot {
+				node.ForkchoiceParent = anchorIndex
+				anchorNode.Weight += node.Weight
+				pr.updatedConnections = false
+			}
+		}
+	}
 	return err
 }
 
